@@ -120,8 +120,46 @@ def size_of_obj(t):
     return None
 
 
+def offset_params(S, fn, known):
+    """indices of the integer parameters of fn that are used as an offset into *this / subtracted from size() (directly, or by being passed on to a
+    helper that does so) - without regard to checks"""
+    ints = {p.get("name"): i for i, p in enumerate(ir.params(fn)) if ir.qtype(p) in ("unsigned long", "unsigned long long", "unsigned int")}
+    loc = fs.local_sx(fn)
+    out = set()
+    for n in ir.walk_expr(fn):
+        if n.get("kind") == "BinaryOperator" and n.get("opcode") in ("+", "-"):
+            t = fs.subst_locals(ir.sx(n), loc)
+            if t[0] != "bin":
+                continue
+            for a, b in ((t[2], t[3]), (t[3], t[2])):
+                while b[0] == "cast":
+                    b = b[3]
+                if b[0] == "ref" and b[1] in ints:
+                    if t[1] == "+" and a[0] == "call" and a[1][0] == "mem" and a[1][1] == ("this",) and a[1][2] in ("data", "c_str", "begin", "cbegin"):
+                        out.add(ints[b[1]])
+                    if t[1] == "-" and a is t[2] and size_of_obj(a) == ("this",):
+                        out.add(ints[b[1]])
+        tm = fs.this_member_call(n)
+        if tm is not None:
+            tgt = fs.member_target(S.d, n)
+            if tgt is not None and tgt.get("id") in known:
+                for i, a in enumerate(ir.ekids(n)[1:]):
+                    ta = fs.subst_locals(ir.sx(a), loc)
+                    while ta[0] == "cast":
+                        ta = ta[3]
+                    if i in known[tgt.get("id")] and ta[0] == "ref" and ta[1] in ints:
+                        out.add(ints[ta[1]])
+    return out
+
+
 def rule_pos(rep, S, R="C02.pos"):
     d = S.d
+    access0 = fs.member_access(S.cls)
+    helper_uses = {}
+    for _ in range(2):
+        for f in S.fns:
+            if access0.get(f.get("id"), "public") != "public" and f.get("name") not in ("check_index", "check_index_strict"):
+                helper_uses[f.get("id")] = offset_params(S, f, helper_uses)
     for fn in S.fns:
         if fn.get("isImplicit") or fn.get("explicitlyDefaulted"):
             continue
@@ -130,8 +168,13 @@ def rule_pos(rep, S, R="C02.pos"):
             continue
         lab = "%s::%s" % (S.tag, S.label(fn))
         objs = {}
+        loc = fs.local_sx(fn)
+        access = fs.member_access(S.cls)
+        is_helper = access.get(fn.get("id"), "public") != "public"
+        helper = fs.calls_private_helper(S, fn, access)
 
         def symmap(t):
+            t = fs.subst_locals(t, loc)
             if t[0] == "ref" and t[1] in ints:
                 return "p:" + t[1]
             o = size_of_obj(t)
@@ -150,25 +193,36 @@ def rule_pos(rep, S, R="C02.pos"):
                 n = st[1]
                 tm = fs.this_member_call(n)
                 if tm in ("check_index", "check_index_strict"):
-                    a = [ir.sx(x) for x in ir.ekids(n)[1:3]]
+                    a = [fs.subst_locals(ir.sx(x), loc) for x in ir.ekids(n)[1:3]]
                     if a[0][0] == "ref" and a[0][1] in ints:
                         o = size_of_obj(a[1])
                         if o is not None:
                             checked.add((a[0][1], ir.show(o)))
                     continue
-                if n.get("kind") != "BinaryOperator" or n.get("opcode") not in ("+", "-"):
-                    continue
-                t = ir.sx(n)
                 use = None
+                if tm is not None:
+                    tgt = fs.member_target(d, n)
+                    if tgt is not None and helper_uses.get(tgt.get("id")):
+                        for ai, a_ in enumerate(ir.ekids(n)[1:]):
+                            ta = fs.subst_locals(ir.sx(a_), loc)
+                            while ta[0] == "cast":
+                                ta = ta[3]
+                            if ai in helper_uses[tgt.get("id")] and ta[0] == "ref" and ta[1] in ints:
+                                use = (ta[1], ("this",), "argument `%s` of helper %s(), which offsets into the string with it" % (ta[1], tgt.get("name")))
+                if use is None and (n.get("kind") != "BinaryOperator" or n.get("opcode") not in ("+", "-")):
+                    continue
+                t = fs.subst_locals(ir.sx(n), loc) if use is None else ("none",)
+                if use is None and t[0] != "bin":
+                    continue
                 # X.data() + p / X.c_str() + p / X.cbegin() + p
-                if t[1] == "+":
+                if use is None and t[1] == "+":
                     for a, b in ((t[2], t[3]), (t[3], t[2])):
                         bb = b
                         while bb[0] == "cast":
                             bb = bb[3]
                         if bb[0] == "ref" and bb[1] in ints and a[0] == "call" and a[1][0] == "mem" and a[1][2] in ("data", "c_str", "begin", "cbegin") and len(a) == 2:
                             use = (bb[1], a[1][1], "offset `%s`" % ir.show(t))
-                if t[1] == "-":
+                if use is None and t[1] == "-":
                     bb = t[3]
                     while bb[0] == "cast":
                         bb = bb[3]
@@ -193,6 +247,8 @@ def rule_pos(rep, S, R="C02.pos"):
             cons = "%s of parameter `%s`" % (what, p)
             if ok:
                 rep.holds(R, lab, cons, where=d.where(n), detail="dominated by a check of `%s` against %s.size()" % (p, okey if okey != "this" else "this->"))
+            elif is_helper:
+                rep.holds(R, lab, cons, where=d.where(n), detail="non-public helper: the position is validated by its callers (each caller is analysed)", nontrivial=False)
             else:
                 rep.violates(R, lab, cons, where=d.where(n),
                              detail="`%s` is used relative to `%s` without a dominating check_index[_strict](%s, %s.size()) or branch establishing %s <= %s.size()%s" % (
@@ -248,43 +304,63 @@ def rule_pub(rep, S, R="C02.pub"):
 def rule_exc(rep, S, d):
     R = "C02.exc"
     # throwing_error<N>::check_size throws std::length_error exactly when size > N; check_add is check_size(a + b)
+    from .. import ceval
     for f in ir.functions(d, "check_size"):
         c = ir.enclosing_class(d, f)
         if c is None or c.get("name") != "throwing_error" or ir.is_template_pattern(d, f):
             continue
         p = ir.params(f)[0].get("name")
+        cap = int(ir.template_args(c)[0]) if ir.template_args(c) else None
         paths = flow.function_paths(f, with_ctor_inits=False)
         bad = None
-        N = None
+
+        def symmap(t):
+            if t == ("ref", p):
+                return "size"
+            return None
+
+        def lin_c(t):
+            """linear form with constant folding of anything that is not the parameter (N, N + 1, ...)"""
+            l_ = linear.lin(t, symmap)
+            if l_ is not None:
+                return l_
+            return None
         for path in paths:
-            over = None
-            for s in path:
-                if s[0] == "cond":
-                    t = ir.sx(s[1])
-                    if t[0] == "bin" and t[2] == ("ref", p) and t[1] in (">", ">=", "<=", "<"):
-                        try:
-                            from .. import ceval
-                            bound = ceval.ev(ir.ekids(ir.strip(s[1]))[1], ceval.Ctx(d))
-                        except Exception:
-                            bound = None
-                        N = bound
-                        truth = s[2]
-                        op = t[1] if truth else linear.NEG[t[1]]
-                        over = (op, bound)
+            facts = []
+            for s_ in path:
+                if s_[0] != "cond":
+                    continue
+                node = ir.strip(s_[1])
+                t = ir.sx(s_[1])
+                if t[0] == "bin" and t[1] in linear.NEG:
+                    op = t[1] if s_[2] else linear.NEG[t[1]]
+                    sides = []
+                    for side_n, side_t in zip(ir.ekids(node), (t[2], t[3])):
+                        l_ = linear.lin(side_t, symmap)
+                        if l_ is None or (set(l_) - {"", "size"}):
+                            try:
+                                v = ceval.ev(side_n, ceval.Ctx(d))
+                                l_ = Lin({"": v}) if v else Lin()
+                            except Exception:
+                                l_ = None
+                        sides.append(l_)
+                    if sides[0] is not None and sides[1] is not None:
+                        facts += linear.atom_facts(op, sides[0], sides[1])
             end = path[-1]
-            cap = int(ir.template_args(c)[0]) if ir.template_args(c) else None
+            over = linear.entails(facts, Lin({"size": 1, "": -(cap + 1)}), ())      # size >= N + 1
+            within = linear.entails(facts, Lin({"size": -1, "": cap}), ())          # size <= N
             if end[0] == "escape":
                 thr = end[1]
                 ty = ir.qtype(ir.ekids(thr)[0]) if thr is not None and ir.ekids(thr) else "?"
                 if "length_error" not in ty:
                     bad = (thr or f, "throws %s, expected std::length_error" % ty)
-                elif over is None or not ((over[0] == ">" and over[1] == cap) or (over[0] == ">=" and over[1] == cap + 1)):
-                    bad = (thr or f, "throws under `size %s %s`, expected exactly size > N (= %s)" % (over[0] if over else "?", over[1] if over else "?", cap))
+                elif not over:
+                    bad = (thr or f, "throws on a path that did not establish size > N (= %s)" % cap)
             elif end[0] == "return":
                 if ir.sx(ir.ekids(end[1])[0]) != ("ref", p):
                     bad = (end[1], "returns something else than the checked size")
-                elif over is None or not ((over[0] == "<=" and over[1] == cap) or (over[0] == "<" and over[1] == cap + 1)):
-                    bad = (end[1], "accepts sizes under `size %s %s`, expected size <= N (= %s)" % (over[0] if over else "?", over[1] if over else "?", cap))
+                elif not within:
+                    bad = (end[1], "accepts a size on a path that did not establish size <= N (= %s)" % cap)
         lab = "throwing_error<%s>::check_size" % (ir.template_args(c)[0] if ir.template_args(c) else "?")
         if bad:
             rep.violates(R, lab, "length_error exactly for size > N", where=d.where(bad[0]), detail=bad[1])
@@ -294,10 +370,16 @@ def rule_exc(rep, S, d):
         c = ir.enclosing_class(d, f)
         if c is None or c.get("name") != "throwing_error" or ir.is_template_pattern(d, f):
             continue
-        a, b = [p.get("name") for p in ir.params(f)]
+        a_, b_ = [p.get("name") for p in ir.params(f)]
         rets = [x for x in ir.walk_expr(f) if x.get("kind") == "ReturnStmt"]
         t = ir.sx(ir.ekids(rets[0])[0]) if len(rets) == 1 else None
-        ok = t is not None and t[0] == "call" and t[1] == ("ref", "check_size") and t[2] in (("bin", "+", ("ref", a), ("ref", b)), ("bin", "+", ("ref", b), ("ref", a)))
+        loc = {v.get("name"): ir.sx(ir.ekids(v)[-1]) for v in ir.walk_expr(f) if v.get("kind") == "VarDecl" and ir.ekids(v)}
+        arg = t[2] if t is not None and t[0] == "call" and len(t) == 3 else None
+        hops = 0
+        while arg is not None and arg[0] == "ref" and arg[1] in loc and hops < 3:
+            arg = loc[arg[1]]
+            hops += 1
+        ok = t is not None and t[0] == "call" and t[1] == ("ref", "check_size") and arg in (("bin", "+", ("ref", a_), ("ref", b_)), ("bin", "+", ("ref", b_), ("ref", a_)))
         lab = "throwing_error<%s>::check_add" % (ir.template_args(c)[0] if ir.template_args(c) else "?")
         (rep.holds if ok else rep.violates)(R, lab, "check_size(size1 + size2)", where=d.where(f), **({} if ok else {"detail": "returns `%s`" % (ir.show(t) if t else "?")}))
     # check_index: out_of_range exactly for pos >= size; check_index_strict(pos, size) = check_index(pos, size + 1)
@@ -490,6 +572,15 @@ def rule_extent(rep, S, cap, mode="write", R="C02.extent"):
                         if t[1] in uint_params:
                             return Lin({"p:" + t[1]: 1})
                         return None
+                    if t[0] == "cond":
+                        tv = cond_truth.get(t[1])
+                        if tv is None and t[1][0] == "cast":
+                            tv = cond_truth.get(t[1][3])
+                        if tv is None:
+                            return None
+                        return val(t[2] if tv else t[3])
+                    if t[0] == "call" and t in call_vals:
+                        return call_vals[t]
                     if t[0] == "call":
                         c = t[1]
                         if c[0] == "mem" and c[2] in ("size", "length") and len(t) == 2:
@@ -549,6 +640,11 @@ def rule_extent(rep, S, cap, mode="write", R="C02.extent"):
                         return None
                     if t[0] == "call" and t[1] == ("mem", ("mem", ("this",), "m_storage"), "buffer"):
                         return Lin()
+                    if t[0] == "cond":
+                        tv = cond_truth.get(t[1])
+                        if tv is None:
+                            return None
+                        return off(t[2] if tv else t[3])
                     if t[0] == "call" and t[1] == ("ref", "min") and len(t) == 4:
                         a, b = off(t[2]), off(t[3])
                         if a is None or b is None:
@@ -587,9 +683,36 @@ def rule_extent(rep, S, cap, mode="write", R="C02.extent"):
                         if a is not None and b is not None:
                             facts.extend(linear.atom_facts(op, a, b))
 
-                for st in path:
+                access = fs.member_access(S.cls)
+                call_vals = {}
+                cond_truth = {}
+                tainted = [False]
+                work = list(path)
+                depth_guard = [0]
+                while work:
+                    st = work.pop(0)
+                    if st[0] == "leave":
+                        # restore the caller's bindings and record the helper's return value
+                        saved, call_t, ret_node = st[1], st[2], st[3]
+                        rv = None
+                        if ret_node is not None and ir.ekids(ret_node):
+                            rt_ = ir.sx(ir.ekids(ret_node)[0])
+                            rv = val(rt_)
+                            if rv is None:
+                                rvp = off(rt_)
+                                if rvp is not None:
+                                    call_vals[("ptr", call_t)] = rvp
+                        if rv is not None:
+                            call_vals[call_t] = rv
+                        for k_, v_ in saved.items():
+                            if v_ is None:
+                                env.pop(k_, None)
+                            else:
+                                env[k_] = v_
+                        continue
                     if st[0] == "cond":
                         add_cond(ir.sx(st[1]), st[2])
+                        cond_truth[ir.sx(st[1])] = st[2]
                         continue
                     if st[0] == "decl":
                         v = st[1]
@@ -610,6 +733,34 @@ def rule_extent(rep, S, cap, mode="write", R="C02.extent"):
                     n = st[1]
                     tm = fs.this_member_call(n)
                     t = ir.sx(n)
+                    if tm is not None and tm not in ("check_index", "check_index_strict", "compare_impl", "data", "c_str", "begin", "end", "cbegin", "cend", "size", "length"):
+                        tgt = fs.member_target(d, n)
+                        if tgt is not None and ir.has_body(tgt) and access.get(tgt.get("id"), "public") != "public" and depth_guard[0] < 6:
+                            try:
+                                cps = flow.function_paths(tgt, with_ctor_inits=False)
+                            except cj.AnalysisBroken:
+                                cps = []
+                            if len(cps) != 1:
+                                tainted[0] = True       # a branching helper: its facts are not followed
+                                continue
+                            depth_guard[0] += 1
+                            saved = {}
+                            for prm, arg in zip(ir.params(tgt), ir.ekids(n)[1:]):
+                                ta = ir.sx(arg)
+                                nm_ = prm.get("name")
+                                pv = val(ta)
+                                if pv is not None and "*" not in ir.qtype(prm):
+                                    saved[nm_] = env.get(nm_)
+                                    env[nm_] = pv
+                                else:
+                                    pp = off(ta)
+                                    saved[("ptr", nm_)] = env.get(("ptr", nm_))
+                                    if pp is not None:
+                                        env[("ptr", nm_)] = pp
+                            callee_steps = cps[0]
+                            ret = callee_steps[-1][1] if callee_steps and callee_steps[-1][0] == "return" else None
+                            work = [x for x in callee_steps if x[0] not in ("return", "end")] + [("leave", saved, t, ret)] + work
+                            continue
                     if tm == "check_index_strict":
                         a, b = val(t[2]), val(t[3])
                         if a is not None and b is not None:
@@ -679,13 +830,18 @@ def rule_extent(rep, S, cap, mode="write", R="C02.extent"):
                         b0 = off(args[2])
                         f0, l0 = off(args[0]), off(args[1])
                         ln = (l0 - f0) if (f0 is not None and l0 is not None) else None
-                        if ln is None:
+                        pnames_all = {p_.get("name") for p_ in params}
+                        foreign = all((a_[0] == "ref" and a_[1] in pnames_all and a_[1] not in it_params) or
+                                      (a_[0] == "call" and a_[1][0] == "mem" and a_[1][2] in ("begin", "end") and a_[1][1] != ("this",)) for a_ in (args[0], args[1]))
+                        if ln is None and not foreign:
+                            b0 = None        # a source range that is neither in *this nor a caller-supplied iterator pair: not followed
+                        if ln is None and foreign:
                             key = "len:distance(%s, %s)" % (ir.show(args[0]), ir.show(args[1]))
                             alt = [k for k in nonneg if k.startswith("len:") and ir.show(args[0]) in k and ir.show(args[1]) in k]
                             key = alt[0] if alt else key
                             nonneg.add(key)
                             ln = Lin({key: 1})
-                        if b0 is not None:
+                        if b0 is not None and ln is not None:
                             start, end = b0, b0 + ln
                     elif kind == "copy_backward":
                         e0 = off(args[2])
@@ -704,7 +860,17 @@ def rule_extent(rep, S, cap, mode="write", R="C02.extent"):
                                 start, end = b0, b0 + ln
                     key = id(n)
                     if start is None:
-                        results.setdefault(key, [n, "unknown", "destination or length of `%s` is not linear in the size, capacity and parameters" % d.text(n)[:60].replace("\n", " ")])
+                        moving = kind == "store" and any(x_[0] == "un" and x_[1] in ("++", "--", "post++", "post--") for x_ in ir.subterms(dst))
+                        in_loop = False
+                        pp_ = d.parent_of(n)
+                        while pp_ is not None and pp_ is not fn:
+                            if pp_.get("kind") in ("ForStmt", "WhileStmt", "DoStmt"):
+                                in_loop = True
+                            pp_ = d.parent_of(pp_)
+                        if moving or (kind == "store" and in_loop):
+                            results.setdefault(key, [n, "skip", "element store through a cursor that moves in a loop: needs a loop invariant, not followed"])
+                        else:
+                            results.setdefault(key, [n, "unknown", "destination or length of `%s` is not linear in the size, capacity and parameters" % d.text(n)[:60].replace("\n", " ")])
                         continue
                     ok_lo = linear.entails(facts, start, tuple(nonneg))
                     # bulk character writes must stay below the terminator slot (index N); a single element store may be the terminator itself
@@ -715,11 +881,16 @@ def rule_extent(rep, S, cap, mode="write", R="C02.extent"):
                             results[key] = [n, "ok", "[%s, %s) within [0, N]" % (start.show(), end.show())]
                     else:
                         what = "starts at data()+(%s), which is not provably >= 0" % start.show() if not ok_lo else "ends at data()+(%s), which is not provably <= N" % end.show()
-                        results[key] = [n, "bad", "the write %s from the checks on this path (%d facts): a write past the object's own N+1 characters disturbs adjacent memory" % (what, len(facts))]
+                        if tainted[0] or access.get(fn.get("id"), "public") != "public":
+                            results[key] = [n, "unknown", "the write %s here; the missing facts may be established in a helper / by the callers of this helper" % what]
+                        else:
+                            results[key] = [n, "bad", "the write %s from the checks on this path (%d facts): a write past the object's own N+1 characters disturbs adjacent memory" % (what, len(facts))]
         for n, verdict, det in results.values():
             cons = "`%s`" % d.text(n)[:70].replace("\n", " ")
             if verdict == "ok":
                 rep.holds(R, lab, cons, where=d.where(n), detail=det)
+            elif verdict == "skip":
+                rep.note("%s %s: %s" % (lab, cons, det))
             elif verdict == "bad":
                 rep.violates(R, lab, cons, where=d.where(n), detail=det)
             else:
